@@ -2180,6 +2180,14 @@ class ResetIndex(Elemwise):
                 ):
                     return type(self)(self.frame, True, self.name)
                 return
+            if (
+                not self.drop
+                and self.frame._meta.index.name is None
+                and "index" in self.frame.columns
+            ):
+                # the label given to the former index ('index' or 'level_0')
+                # depends on which columns are present
+                return
             result = plain_column_projection(self, parent, dependents)
             if result is not None and not set(result.columns) == set(
                 result.frame.columns
